@@ -656,6 +656,14 @@ impl ChannelHandler {
         proof { assert(htlc_sigs@ =~= sigs_of_wire(m.htlc_signatures.v@)); }
 //@end
 
+// ------------------------------------------------ GetPerCommitmentPoint2 (the new protocol's query: a point, never a secret)
+//@fn vls-protocol-signer/src/handler.rs :: impl Handler for ChannelHandler :: do_handle closure=1 after="Message::GetPerCommitmentPoint2\(m\) =>" as=get_per_commitment_point2_closure props=C01
+//@sig fn get_per_commitment_point2_closure(&self, base: &mut VxChan, commitment_number: u64) -> (r: Result<PublicKey, Status>)
+    ensures
+        *final(base) == *old(base),                                                                  //[C01.handler.get-point2-reads-only]
+        chan_point(old(base)@, commitment_number, r),
+//@end
+
 } // impl
 
 } // verus!
